@@ -1132,3 +1132,78 @@ impl UringCompletionQueue {
         unsafe { self.kernel_head.as_ref().fetch_add(num, Ordering::Release) };
     }
 }
+
+/// Verification hook (add-only, compiled only with `--cfg tiny_std_verif`): lets a test harness
+/// run the ring methods of [`IoUring`] over ring memory it owns instead of `mmap`ed kernel memory.
+#[cfg(tiny_std_verif)]
+pub mod verif_hook {
+    use super::{
+        Fd, IoUring, IoUringCompletionQueueEntry, IoUringParamFlags, IoUringSubmissionQueueEntry,
+        NonNull, UringCompletionQueue, UringSubmissionQueue,
+    };
+
+    /// The pieces of ring memory an [`IoUring`] works on.
+    #[derive(Debug, Copy, Clone)]
+    pub struct VerifRingParts {
+        pub sq_kernel_head: *mut u32,
+        pub sq_kernel_tail: *mut u32,
+        pub sq_kernel_flags: *mut u32,
+        pub sq_kernel_dropped: *mut u32,
+        pub sq_kernel_array: *mut u32,
+        pub sq_head: u32,
+        pub sq_tail: u32,
+        pub sq_ring_mask: u32,
+        pub sq_ring_entries: u32,
+        pub sqes: *mut IoUringSubmissionQueueEntry,
+        pub cq_kernel_head: *mut u32,
+        pub cq_kernel_tail: *mut u32,
+        pub cq_kernel_overflow: *mut u32,
+        pub cq_ring_mask: u32,
+        pub cq_ring_entries: u32,
+        pub cqes: *mut IoUringCompletionQueueEntry,
+    }
+
+    impl IoUring {
+        /// Builds an `IoUring` over caller-supplied ring memory.
+        /// # Safety
+        /// All pointers must be non-null, 4-byte aligned and valid for the ring sizes given.
+        /// The result must never be dropped (`Drop` would `munmap`/`close` things it does not
+        /// own): keep it in a `ManuallyDrop` or `mem::forget` it.
+        #[must_use]
+        pub unsafe fn verif_from_raw_parts(
+            fd: Fd,
+            flags: IoUringParamFlags,
+            p: VerifRingParts,
+        ) -> Self {
+            IoUring {
+                fd,
+                flags,
+                submission_queue: UringSubmissionQueue {
+                    ring_size: 0,
+                    ring_ptr: 0,
+                    kernel_head: NonNull::new_unchecked(p.sq_kernel_head.cast()),
+                    kernel_tail: NonNull::new_unchecked(p.sq_kernel_tail.cast()),
+                    kernel_flags: NonNull::new_unchecked(p.sq_kernel_flags.cast()),
+                    kernel_dropped: NonNull::new_unchecked(p.sq_kernel_dropped.cast()),
+                    kernel_array: NonNull::new_unchecked(p.sq_kernel_array.cast()),
+                    head: p.sq_head,
+                    tail: p.sq_tail,
+                    ring_mask: p.sq_ring_mask,
+                    ring_entries: p.sq_ring_entries,
+                    entries: NonNull::new_unchecked(p.sqes),
+                },
+                completion_queue: UringCompletionQueue {
+                    ring_size: 0,
+                    ring_ptr: 0,
+                    kernel_head: NonNull::new_unchecked(p.cq_kernel_head.cast()),
+                    kernel_tail: NonNull::new_unchecked(p.cq_kernel_tail.cast()),
+                    kernel_flags: None,
+                    kernel_overflow: NonNull::new_unchecked(p.cq_kernel_overflow.cast()),
+                    ring_mask: p.cq_ring_mask,
+                    ring_entries: p.cq_ring_entries,
+                    entries: NonNull::new_unchecked(p.cqes),
+                },
+            }
+        }
+    }
+}
